@@ -199,7 +199,33 @@ def install_seams(chan, cache_dir, private_tmp):
                 extra[name] = getattr(st, name)
         return os.stat_result(f, extra)
 
+    fresh = cache_real.endswith(os.path.join("fresh", "cache"))
+
+    def cache_dir_part(path):
+        """-> label if path is the cache directory or one of its not-yet-existing ancestors."""
+        if not fresh:
+            return None  # the directory exists from the start: nothing to race for
+        try:
+            pth = os.fspath(path)
+            if isinstance(pth, bytes):
+                pth = pth.decode()
+            if "fresh" not in pth and os.path.isabs(pth):
+                return None
+            pth = os.path.realpath(os.path.abspath(pth))
+        except TypeError:
+            return None
+        if pth == cache_real:
+            return "$CACHE"
+        if cache_real.startswith(pth + os.sep) and os.sep + "fresh" in pth[len(os.path.dirname(pth)):] + os.sep:
+            return "$CACHE/.."
+        return None
+
     def sim_stat(path, *a, **k):
+        if not isinstance(path, int):
+            lab = cache_dir_part(path)
+            if lab is not None:
+                chan.seam("stat", file=lab, role="dir")
+                return real_stat(path, *a, **k)
         base = watched(path) if not isinstance(path, int) else None
         if base is not None and role_of(base) in ("marker", "lock", "failed"):
             ans = chan.seam("stat", file=base, role=role_of(base))
@@ -259,6 +285,10 @@ def install_seams(chan, cache_dir, private_tmp):
         return real_symlink(src, dst, *a, **k)
 
     def sim_mkdir(path, *a, **k):
+        lab = cache_dir_part(path)
+        if lab is not None:
+            chan.seam("mkdir", file=lab, role="dir")
+            return real_mkdir(path, *a, **k)
         base = watched(path)
         if base and role_of(base) in ("marker", "lock", "failed"):
             chan.seam("open", file=base, role=role_of(base), mode="x", lowlevel=True, via="mkdir")
